@@ -768,3 +768,23 @@ func init() {
 		return structure{st[0], ne, st[2]}
 	}
 }
+
+func init() {
+	dec := func(fr *frame, args []value) value {
+		bs := seqOf(args[0])
+		sym := false
+		for k := 0; k < len(bs) && k < 4; k++ {
+			if _, ok := bs[k].(*Term); ok {
+				sym = true
+			}
+		}
+		if len(bs) == 0 || !sym {
+			fr2 := &frame{i: fr.i, caller: fr.caller, fn: fr.fn}
+			return runBody(fr2, args)
+		}
+		r, n := fr.i.symDecodeRune(bs)
+		return tuple{r, n}
+	}
+	externals["unicode/utf8.DecodeRune"] = dec
+	externals["unicode/utf8.DecodeRuneInString"] = dec
+}
